@@ -170,6 +170,30 @@ theorem waitJobs_isSome {t : Table} {fin sched : List Nat}
       · rename_i hn; simp [hn] at h2
       · rfl
 
+theorem awaitTask_of_mem {k : Nat} {fin : List Nat} (sched : List Nat) (h : k ∈ fin) :
+    awaitTask k fin sched = some (fin, sched) := by
+  cases sched <;> simp [awaitTask, h]
+
+theorem waitTasks_of_mem {ks fin : List Nat} (sched : List Nat) (h : ∀ k ∈ ks, k ∈ fin) :
+    waitTasks ks fin sched = some (fin, sched) := by
+  induction ks with
+  | nil => rfl
+  | cons k ks ih =>
+    simp only [waitTasks, awaitTask_of_mem sched (h k (List.mem_cons_self ..))]
+    exact ih (fun x hx => h x (List.mem_cons_of_mem _ hx))
+
+theorem waitJobs_of_mem {t : Table} {fin : List Nat} (sched : List Nat)
+    (h : ∀ j ∈ t, ∀ k ∈ j.tasks, k ∈ fin) : waitJobs t fin sched = some (t.map cleared, fin, sched) := by
+  induction t with
+  | nil => rfl
+  | cons j js ih =>
+    have h1 : jobWait j fin sched = some (cleared j, fin, sched) := by
+      have hw : waitTasks j.tasks.reverse fin sched = some (fin, sched) :=
+        waitTasks_of_mem sched (fun k hk => h j (List.mem_cons_self ..) k (by simpa using hk))
+      simp only [jobWait, hw]
+      rfl
+    simp only [waitJobs, h1, ih (fun x hx => h x (List.mem_cons_of_mem _ hx)), List.map_cons]
+
 theorem sweep_cleared (t : Table) : sweep (t.map cleared) = ([], t.map cleared) := by
   simp [sweep, cleared, List.filter_eq_nil_iff, List.filter_eq_self]
 
